@@ -473,7 +473,7 @@ def attributable(prop, script, diffs):
 
 # --------------------------------------------------------------------------- main check
 
-DET_FAMILIES = {"table": 43572, "exh": 1213568, "opx": 885120}   # sizes of the deterministic enumerations (gen prints them)
+DET_FAMILIES = {"table": 44832, "exh": 1213568, "opx": 885120}   # sizes of the deterministic enumerations (gen prints them)
 DET_STRIDE = 104729                                                # prime, coprime to all three sizes
 
 
